@@ -315,14 +315,30 @@ func forcedRun(c *poolCase, pi *poolInput, mismatch bool) (poolResult, bool, []s
 	step := 3 * time.Second
 	// per logical worker: what it does next is implied by the order of its entries for an item
 	seen := map[[2]int]int{}
+	lastItem := map[int]int{}
 	for _, e := range c.Sched {
 		lw, item := e[0], e[1]
+		if item != 0 {
+			lastItem[lw] = item
+		}
 		if !realizable {
 			break
 		}
 		if item == 0 { // "done"
 			if fed >= len(items) {
 				closeFeed()
+			} else if c.Kind == "fbp" && lastItem[lw] == c.ErrAt && c.ErrAt > 0 {
+				// the FBP worker that met the erroneous tree leaves at once (it records the error and returns): it is that
+				// physical worker, and the others go on
+				pw := bound[lw]
+				ev := sch.waitFor("done", func(ev *gateEv) bool { return ev.worker == pw && !used[ev.worker] }, step)
+				if ev == nil {
+					realizable = false
+					break
+				}
+				used[ev.worker] = true
+				close(ev.resume)
+				continue
 			} else {
 				// a worker can only see the closed channel once everything was delivered
 				realizable = false
